@@ -46,6 +46,7 @@ MANIFEST = {
             'of a template that invokes itself again from the innermost '
             'level (its defaults on top again); all pairs of sibling blocks '
             'with an outer value whose result changes on every call; the '
+            'winning source whose value is None (defined, not missing); the '
             'source subsets once more with names spelled like builtins of '
             'the expression language (max, str, len) and with an '
             'underscore name.',
@@ -84,6 +85,9 @@ def value_spec(kind, marker):
             else ['lit', v]
     if kind == 'callable':
         return ['probe', marker, ['lit', marker]]
+    if kind == 'nonetop':
+        # the winning source defines the name, with the value None
+        return ['lit', None]
     if kind in ('raiseK', 'raiseN'):
         # a callable whose own body fails with a KeyError / NameError about
         # something else: that is its failure, not "name not defined here"
@@ -142,7 +146,7 @@ def cases(tier):
     # the value of the winning source is a callable that fails
     for k in range(2, 7):
         for sub in itertools.combinations(SOURCES, k):
-            for kind in ('raiseK', 'raiseN'):
+            for kind in ('raiseK', 'raiseN', 'nonetop'):
                 for form in ('var', 'call', 'entity', 'ifvar'):
                     for shape in (('single', 'last') if 'client' in sub
                                   else ('none',)):
@@ -220,8 +224,9 @@ def build_src(case):
     spec = {}
     for s in case['sources']:
         spec[s] = value_spec(kind, 'S-' + s)
-    if kind in ('raiseK', 'raiseN'):
-        # only the winning source raises; the others define plain values
+    if kind in ('raiseK', 'raiseN', 'nonetop'):
+        # only the winning source raises (or is None); the others define
+        # plain values
         top = min(case['sources'], key=SOURCES.index)
         for s in case['sources']:
             if s != top:
